@@ -7,11 +7,11 @@
    this shape (MCR_<batch>.tla) with hundreds of programs written as literals by the seeded grammar.
    Program 1: early `return` inside a buffered def (the property keeps "abc"; deviation ReturnDropsBuffer
    is what the code does, finding #21).  Program 2: a call with content in a loop in a try block, the
-   filtered callee calling caller.body() twice, marks 1..6 as raise points. *)
+   filtered callee calling caller.body() twice, marks 1..7 as raise points (7 stands in the iterable expression of the for). *)
 EXTENDS Render
 ProgsDef == <<
 [defs |-> [f |-> [flags |-> {"buffered"}, fm |-> 0, dec |-> FALSE, dm |-> 0, blk |-> FALSE, params |-> <<>>, body |-> <<[k |-> "text", t |-> "abc"], [k |-> "ret"], [k |-> "text", t |-> "def"]>>]], incs |-> <<>>, body |-> <<[k |-> "text", t |-> "["], [k |-> "expr", parts |-> <<[k |-> "call", d |-> "f", via |-> "name", args |-> [pos |-> <<>>, kw |-> <<>>]]>>], [k |-> "text", t |-> "]"]>>, eh |-> FALSE, fe |-> FALSE, el |-> "on"],
-[defs |-> [d |-> [flags |-> {"filter"}, fm |-> 0, dec |-> FALSE, dm |-> 0, blk |-> FALSE, params |-> <<>>, body |-> <<[k |-> "text", t |-> "d1"], [k |-> "mark", m |-> 1, rl |-> FALSE, w |-> "s"], [k |-> "expr", parts |-> <<[k |-> "cbody", args |-> [pos |-> <<>>, kw |-> <<>>]], [k |-> "cbody", args |-> [pos |-> <<>>, kw |-> <<>>]]>>], [k |-> "mark", m |-> 2, rl |-> FALSE, w |-> "s"]>>]], incs |-> <<>>, body |-> <<[k |-> "try", a |-> <<[k |-> "for", n |-> 2, sized |-> TRUE, a |-> <<[k |-> "mark", m |-> 3, rl |-> TRUE, w |-> "s"], [k |-> "callc", parts |-> <<[k |-> "call", d |-> "d", via |-> "name", args |-> [pos |-> <<>>, kw |-> <<>>]]>>, body |-> <<[k |-> "text", t |-> "b"], [k |-> "mark", m |-> 4, rl |-> FALSE, w |-> "s"]>>, bparams |-> <<>>, defs |-> <<>>]>>, els |-> <<>>]>>, h |-> <<[k |-> "text", t |-> "handler"], [k |-> "mark", m |-> 5, rl |-> FALSE, w |-> "s"]>>], [k |-> "mark", m |-> 6, rl |-> FALSE, w |-> "s"]>>, eh |-> FALSE, fe |-> FALSE, el |-> "on"]
+[defs |-> [d |-> [flags |-> {"filter"}, fm |-> 0, dec |-> FALSE, dm |-> 0, blk |-> FALSE, params |-> <<>>, body |-> <<[k |-> "text", t |-> "d1"], [k |-> "mark", m |-> 1, rl |-> FALSE, w |-> "s"], [k |-> "expr", parts |-> <<[k |-> "cbody", args |-> [pos |-> <<>>, kw |-> <<>>]], [k |-> "cbody", args |-> [pos |-> <<>>, kw |-> <<>>]]>>], [k |-> "mark", m |-> 2, rl |-> FALSE, w |-> "s"]>>]], incs |-> <<>>, body |-> <<[k |-> "try", a |-> <<[k |-> "for", n |-> 2, sized |-> TRUE, a |-> <<[k |-> "mark", m |-> 3, rl |-> TRUE, w |-> "s"], [k |-> "callc", parts |-> <<[k |-> "call", d |-> "d", via |-> "name", args |-> [pos |-> <<>>, kw |-> <<>>]]>>, body |-> <<[k |-> "text", t |-> "b"], [k |-> "mark", m |-> 4, rl |-> FALSE, w |-> "s"]>>, bparams |-> <<>>, defs |-> <<>>]>>, els |-> <<>>, im |-> [k |-> "mark", m |-> 7, rl |-> FALSE, w |-> "s"]]>>, h |-> <<[k |-> "text", t |-> "handler"], [k |-> "mark", m |-> 5, rl |-> FALSE, w |-> "s"]>>], [k |-> "mark", m |-> 6, rl |-> FALSE, w |-> "s"]>>, eh |-> FALSE, fe |-> FALSE, el |-> "on"]
 >>
 DevDef == {}
 =============================================================================
